@@ -390,9 +390,136 @@ def run_responses(out, tier, seed):
     return {"response_traces": n, "response_pairs_compared": compared, "response_failures": bad, "header_kinds_seen": sorted(hdr_kinds), "messages_with_headers_checked": msgs_checked}
 
 
+# ----------------------------------------------------------------------------- SendMessages (Model/WireMsg.v)
+def gen_send(rng):
+    s_, t_ = rid(rng), rid(rng)
+    pk = rng.choice([1, 2, 3])
+    pv = b"" if pk == 1 else (struct.pack("<I", rng.choice([1, 2, 1000, 4294967295])) if pk == 2 else bytes(rng.randrange(256) for _ in range(rng.choice([1, 2, 16, 255]))))
+    msgs = []
+    for _ in range(rng.choice([1, 1, 2, 3])):
+        hdrs = {}
+        for _ in range(rng.choice([0, 1, 1, 2, 3])):
+            kind = rng.randrange(1, 16)
+            ln = rng.choice([1, 2, 254, 255]) if kind in (1, 2) else FIXED[kind]
+            val = bytes(rng.choice(b"abcxyz019") for _ in range(ln)) if kind == 2 else bytes(rng.randrange(256) for _ in range(ln))
+            key = "".join(rng.choice("hkqz05_-") for _ in range(rng.choice([1, 3, 8, 255]))).encode()
+            hdrs[key] = [key.hex(), kind, val.hex()]
+        payload = bytes(rng.randrange(256) for _ in range(rng.choice([1, 2, 100])))
+        msgs.append({"id": str(rng.choice([1, 2 ** 64, 2 ** 128 - 1, rng.randrange(1, 2 ** 128)])), "hdrs": sorted(hdrs.values()), "payload": payload.hex()})
+    return {"k": "send", "s": s_, "t": t_, "pk": pk, "pv": pv.hex(), "msgs": msgs}
+
+
+def send_term(q):
+    hd = lambda h: Raw("(mk_hdr %s %d %s)" % (show(list(bytes.fromhex(h[0]))), h[1], show(list(bytes.fromhex(h[2])))))
+    ms = [Raw("(mk_msg %s %s %s)" % (q_["id"], show([hd(h) for h in q_["hdrs"]]), show(list(bytes.fromhex(q_["payload"]))))) for q_ in q["msgs"]]
+    return "(mk_send %s %s %d %s %s)" % (show(ident_term(q["s"])), show(ident_term(q["t"])), q["pk"], show(list(bytes.fromhex(q["pv"]))), show(ms))
+
+
+def ident_bytes(i):
+    return (bytes([1, 4]) + struct.pack("<I", i[1])) if i[0] == "n" else (bytes([2, len(i[1])]) + i[1].encode())
+
+
+def send_struct_of_q(q):
+    return (ident_bytes(q["s"]).hex(), ident_bytes(q["t"]).hex(), q["pk"], q["pv"], [(m["id"], [tuple(h) for h in sorted(m["hdrs"])], m["payload"]) for m in q["msgs"]])
+
+
+def send_struct_of_server(d):
+    return (d["s"], d["t"], d["pk"], d["pv"], [(m["id"], [tuple(h) for h in m["hdrs"]], m["payload"]) for m in d["msgs"]])
+
+
+def send_struct_of_model(v):
+    """v = (stream bytes, topic bytes, kind, value, [(id, [(key, kind, value)], payload)]) as Coq printed it; a header map keeps the last
+    value written for a key"""
+    s_, t_, pk, pv, ms = v
+    out = []
+    for m in ms:
+        mid, hs, pay = m
+        d = {}
+        for h in hs:
+            k, kind, val = h
+            d[bytes(k).hex()] = (bytes(k).hex(), kind, bytes(val).hex())
+        out.append((str(mid), sorted(d.values()), bytes(pay).hex()))
+    return (bytes(s_).hex(), bytes(t_).hex(), pk, bytes(pv).hex(), out)
+
+
+def run_wire_send(out, tier, seed):
+    rng = util.Rng(seed * 104729 + 1301)
+    n = 60 if tier == "quick" else 800
+    reqs = [gen_send(rng) for _ in range(n)]
+    shards = [reqs[i:i + 100] for i in range(0, n, 100)]
+    impl = harness.run_traces("wire", [{"id": "sw%d" % i, "items": [{"q": q} for q in sh]} for i, sh in enumerate(shards)])
+    outs = [o for i in range(len(shards)) for o in impl["sw%d" % i]["outs"]]
+    # (a) the model encodes a request with at most one header per message to the SDK's bytes; (b) the model decodes the SDK's bytes
+    # to the request, whatever order the header maps were written in
+    terms = []
+    for q, o in zip(reqs, outs):
+        terms.append("(send_enc_render %s, send_dec_render %s)" % (send_term(q), show(list(bytes.fromhex(o["hex"])))))
+    vals = coqrun.eval_terms("C13send", "Base.Tactics Base.LE Model.Wire Model.WireMsg", terms, shard_size=10)
+    bad, reported, raws = 0, 0, []
+    for q, o, v in zip(reqs, outs, vals):
+        sdk = bytes.fromhex(o["hex"])
+        want = send_struct_of_q(q)
+        enc, dec = v
+        problem = None
+        d = o["dec"]
+        if d.get("r") != "ok" or "send" not in d or send_struct_of_server(d["send"]) != want:
+            problem = ("spec-monitor", "a SendMessages request the SDK builds is not decoded by the server to the same request", {"server_decode": d})
+        elif not (isinstance(dec, tuple) and dec[0] == "Some") or send_struct_of_model(dec[1]) != want:
+            problem = ("correspondence", "corr_C13_send_dec (Model/WireMsg.v dec_send on the SDK's bytes)", {"model_decode": str(dec)[:600]})
+        elif all(len(m["hdrs"]) <= 1 for m in q["msgs"]) and bytes(enc) != sdk:
+            problem = ("correspondence", "corr_C13_send_enc (Model/WireMsg.v enc_send vs SendMessages::to_bytes)", {"model_bytes": bytes(enc).hex()})
+        if problem:
+            bad += 1
+            if reported < 3:
+                payload = {"kind": problem[0], "mode": "wire", "request": q, "sdk_bytes": o["hex"]}
+                payload.update(problem[2])
+                if problem[0] == "correspondence":
+                    payload["no_longer_checks"] = problem[1]
+                    out.violation("send-%d" % bad, payload, no_failing_input=True)
+                else:
+                    payload["what"] = problem[1]
+                    out.violation("send-%d" % bad, payload)
+                reported += 1
+            continue
+        for m in mutations(rng, sdk):
+            raws.append((m, q))
+    ritems = [{"raw": {"code": 101, "hex": m.hex()}} for m, _ in raws]
+    rshards = [ritems[i:i + 300] for i in range(0, len(ritems), 300)]
+    rimpl = harness.run_traces("wire", [{"id": "sr%d" % i, "items": sh} for i, sh in enumerate(rshards)])
+    routs = [o for i in range(len(rshards)) for o in rimpl["sr%d" % i]["outs"]]
+    rvals = coqrun.eval_terms("C13senddec", "Base.Tactics Base.LE Model.Wire Model.WireMsg", ["send_dec_render %s" % show(list(m)) for m, _ in raws], shard_size=40)
+    raw_bad, verdicts, tolerated = 0, {}, 0
+    for (m, q), o, v in zip(raws, routs, rvals):
+        d = o["dec"]
+        verdicts[d["r"]] = verdicts.get(d["r"], 0) + 1
+        m_ok = isinstance(v, tuple) and v[0] == "Some"
+        if m_ok:
+            ms = send_struct_of_model(v[1])
+            if d["r"] == "ok":
+                sv = send_struct_of_server(d["send"])
+                # a message id of 0 is replaced by a generated id in the server
+                agree = sv[:4] == ms[:4] and len(sv[4]) == len(ms[4]) and all((a[0] == b[0] or b[0] == "0") and a[1:] == b[1:] for a, b in zip(sv[4], ms[4]))
+            else:
+                # the model does not check that header keys are UTF-8
+                non_ascii = any(any(b >= 0x80 for b in bytes.fromhex(h[0])) for mm in ms[4] for h in mm[1])
+                agree = non_ascii
+                tolerated += 1 if non_ascii else 0
+        else:
+            agree = d["r"] != "ok"
+        if not agree:
+            raw_bad += 1
+            if reported < 3:
+                out.violation("send-dec-%d" % raw_bad, {"kind": "correspondence", "no_longer_checks": "corr_C13_send_dec (Model/WireMsg.v dec_send vs the server's decoder on malformed frames)", "mode": "wire",
+                                                        "code": 101, "frame_hex": m.hex(), "derived_from": q, "server_decode": d, "model": str(v)[:600]}, no_failing_input=True)
+                reported += 1
+    return {"send_requests": n, "send_request_failures": bad, "send_malformed_frames": len(raws), "send_malformed_verdicts": verdicts, "send_decoding_disagreements": raw_bad,
+            "send_refusals_explained_by_non_utf8_keys": tolerated}
+
+
 def run(out, tier, seed, gate):
     t0 = time.time()
     cov = run_wire(out, tier, seed)
+    cov.update(run_wire_send(out, tier, seed))
     cov.update(run_server(out, tier, seed))
     cov.update(run_responses(out, tier, seed))
     cov.update({"evaluations": cov["requests"] + cov["malformed_frames"], "distinct_nontrivial": cov["requests"],
